@@ -198,11 +198,24 @@ class _Fold(ast.NodeTransformer):
 # lowering of conditional expressions (on a private copy of the function)
 
 
+def _is_boolish(e: ast.AST) -> bool:
+    return isinstance(e, (ast.Compare, ast.BoolOp)) or (isinstance(e, ast.UnaryOp) and isinstance(e.op, ast.Not)) or \
+        (isinstance(e, ast.Call) and isinstance(e.func, ast.Name) and e.func.id in ("isinstance", "bool", "any", "all", "callable", "hasattr")) or \
+        (isinstance(e, ast.Constant) and isinstance(e.value, bool))
+
+
 class _Lower(ast.NodeTransformer):
     """x = A if c else B  ->  if c: x = A else: x = B ; likewise return / expression statements / subscript stores."""
 
     def _split(self, st: ast.stmt) -> Optional[ast.stmt]:
         v = st.value
+        if isinstance(v, ast.BoolOp) and isinstance(v.op, ast.Or) and all(substitutable(x) for x in v.values[:-1]) and not any(_is_boolish(x) for x in v.values):
+            # x = A or B  ->  if A: x = A else: x = B   (A has value semantics: evaluating it for the test and for the value is the same)
+            a, b = copy.deepcopy(st), copy.deepcopy(st)
+            a.value = v.values[0]
+            b.value = v.values[1] if len(v.values) == 2 else ast.BoolOp(op=ast.Or(), values=v.values[1:])
+            new = ast.If(test=copy.deepcopy(v.values[0]), body=[self.visit(a)], orelse=[self.visit(b)])
+            return ast.copy_location(new, st)
         if isinstance(v, ast.IfExp):
             a, b = copy.deepcopy(st), copy.deepcopy(st)
             a.value, b.value = v.body, v.orelse
@@ -234,6 +247,28 @@ class _Lower(ast.NodeTransformer):
         return node
 
 
+def _bool_returns(fn: ast.FunctionDef) -> ast.FunctionDef:
+    """return <boolean expression>  ->  if <expression>: return True else: return False  (the function is a predicate)."""
+    new = copy.deepcopy(fn)
+
+    class T(ast.NodeTransformer):
+        def visit_Return(self, st: ast.Return):
+            if st.value is not None and _is_boolish(st.value) and not isinstance(st.value, ast.Constant):
+                return ast.copy_location(ast.If(test=st.value, body=[ast.copy_location(ast.Return(value=ast.Constant(value=True)), st)],
+                                                orelse=[ast.copy_location(ast.Return(value=ast.Constant(value=False)), st)]), st)
+            return st
+
+        def visit_FunctionDef(self, n):
+            return n if n is not new else self.generic_visit(n)
+
+        def visit_Lambda(self, n):
+            return n
+
+    T().visit(new)
+    ast.fix_missing_locations(new)
+    return new
+
+
 def lowered(fn: ast.FunctionDef) -> ast.FunctionDef:
     new = copy.deepcopy(fn)
     body = []
@@ -256,6 +291,7 @@ class Eff:
     line: int
     loops: Tuple[int, ...] = ()  # line numbers of the loops the effect is inside
     raw: Optional[ast.AST] = None
+    opaque: bool = False  # bind: the local is kept by name (its value is not substituted at its uses)
 
     @property
     def text(self) -> str:
@@ -273,6 +309,8 @@ class Eff:
             return self.kind
         if self.kind == "expr":
             return v
+        if self.kind == "delete":
+            return f"delete {t}"
         return f"{self.kind} {v}".strip()
 
     def calls(self) -> List[ast.Call]:
@@ -406,8 +444,8 @@ def _simplify(e: ast.AST) -> ast.AST:
 
 class Summariser:
     def __init__(self, fn: ast.FunctionDef, follow_exc: bool = False, nonempty: Optional[Callable[[ast.For, Dict[str, ast.AST]], bool]] = None, limit: int = 20000,
-                 opaque: Optional[Callable[[ast.AST], bool]] = None, stop_at_raise: bool = True, keep: Iterable[str] = (), fold=None, pure_calls: Iterable[str] = (), records: Optional[Dict[str, List[str]]] = None):
-        self.fn = lowered(fn)
+                 opaque: Optional[Callable[[ast.AST], bool]] = None, stop_at_raise: bool = True, keep: Iterable[str] = (), fold=None, pure_calls: Iterable[str] = (), records: Optional[Dict[str, List[str]]] = None, bool_returns: bool = False):
+        self.fn = lowered(_bool_returns(fn) if bool_returns else fn)
         self.cfg = CFG(self.fn)
         self.follow_exc = follow_exc
         self.nonempty = nonempty or (lambda f, env: False)
@@ -668,7 +706,7 @@ class Summariser:
             return None
         return None
 
-    def _bind(self, env: Dict[str, ast.AST], name: str, value: ast.AST) -> None:
+    def _bind(self, env: Dict[str, ast.AST], name: str, value: ast.AST) -> bool:
         if name in self.keep or not substitutable(value, self.pure_calls):
             self._opaque(env, [name])
             env["%killed"] = set(env.get("%killed", ())) | {name}
@@ -676,8 +714,9 @@ class Summariser:
                 facts = dict(env.get("%facts", {}))
                 facts[name] = False  # "name is None" is false
                 env["%facts"] = facts
-        else:
-            env[name] = value
+            return True
+        env[name] = value
+        return False
 
     def _transfer(self, st: ast.AST, env: Dict[str, ast.AST], effects: List[Eff], lstack) -> Tuple[Dict[str, ast.AST], List[Eff]]:
         n0 = len(effects)
@@ -699,8 +738,7 @@ class Summariser:
             new_eff = []
             for t in targets:
                 if isinstance(t, ast.Name):
-                    new_eff.append(Eff("bind", ast.Name(id=t.id, ctx=ast.Load()), v, line, lstack, st))
-                    self._bind(env, t.id, v)
+                    new_eff.append(Eff("bind", ast.Name(id=t.id, ctx=ast.Load()), v, line, lstack, st, self._bind(env, t.id, v)))
                 elif isinstance(t, (ast.Tuple, ast.List)) and all(isinstance(x, ast.Name) for x in t.elts):
                     new_eff.append(Eff("bind", t, v, line, lstack, st))
                     for i, x in enumerate(t.elts):
@@ -720,8 +758,8 @@ class Summariser:
             if isinstance(st.target, ast.Name):
                 old = env.get(st.target.id, ast.Name(id=st.target.id, ctx=ast.Load()))
                 nv = ast.BinOp(left=copy.deepcopy(old), op=st.op, right=v)
-                self._bind(env, st.target.id, nv)
-                return env, effects + [Eff("bind", ast.Name(id=st.target.id, ctx=ast.Load()), nv, line, lstack, st)]
+                op_ = self._bind(env, st.target.id, nv)
+                return env, effects + [Eff("bind", ast.Name(id=st.target.id, ctx=ast.Load()), nv, line, lstack, st, op_)]
             tv = self.sub(_as_load(st.target), env)
             return env, effects + [Eff("aug", tv, ast.BinOp(left=copy.deepcopy(tv), op=st.op, right=v), line, lstack, st)]
         if isinstance(st, ast.Expr):
